@@ -4,7 +4,11 @@ package generator
 
 import (
 	"encoding/json"
+	"os"
+	"path/filepath"
 	"strings"
+
+	"github.com/go-openapi/analysis"
 
 	"github.com/go-openapi/spec"
 )
@@ -215,4 +219,60 @@ func VerifC10EmbeddedTexts() {
 	gotFlat, ok2 := vEvalGoStringExpr("`" + string(app.FlatSwaggerJSON) + "`")
 	vAssert(ok1 && gotOrig == wantOrig, "the embedded original document is not a Go string expression for the marshalled document")
 	vAssert(ok2 && gotFlat == wantFlat, "the embedded flattened document is not a Go string expression for the marshalled document")
+}
+
+func init() { vRegister("VerifC10OrigSpecKept", VerifC10OrigSpecKept) }
+
+// C10 (loading): after validateAndFlattenSpec the document still remembers the input spec as its
+// original (that is what the generated server embeds as SwaggerJSON and serves), for minimal and
+// for full flattening. Symbolically the loader answers with a document whose working spec has
+// already been rewritten the way full flattening does (inline body -> $ref) and analysis.Flatten
+// is a stub; natively the real loader and the real flattening run on a temporary file.
+func VerifC10OrigSpecKept() {
+	full := vBool2("fullFlattening")
+	sw := vBaseSpec()
+	p := vInlineBody("list", "z", *spec.StringProperty(), 2)
+	op := &spec.Operation{}
+	op.ID = "postIt"
+	op.Parameters = []spec.Parameter{p}
+	op.Responses = vOKResponses()
+	vAddOp(sw, "POST", "/x", op)
+	opts := vGenOpts()
+	opts.ValidateSpec = false
+	opts.FlattenOpts = &analysis.FlattenOpts{Minimal: !full}
+	if vSymbolic() {
+		doc := vDocument(sw)
+		if full {
+			item := doc.Spec().Paths.Paths["/x"].Post.Parameters[0].Schema.Properties["list"]
+			doc.Spec().Definitions = spec.Definitions{"PostItParamsBodyList": item}
+			doc.Spec().Paths.Paths["/x"].Post.Parameters[0].Schema.Properties["list"] = *spec.RefSchema("#/definitions/PostItParamsBodyList")
+		}
+		vStubReturn("github.com/go-openapi/loads.Spec", doc, nil)
+		vStubReturn("github.com/go-openapi/analysis.Flatten", nil)
+		opts.Spec = "swagger.json"
+	} else {
+		dir, err := os.MkdirTemp("", "verifc10")
+		if err != nil {
+			panic(err)
+		}
+		defer os.RemoveAll(dir)
+		b, _ := json.Marshal(sw)
+		opts.Spec = filepath.Join(dir, "swagger.json")
+		_ = os.WriteFile(opts.Spec, b, 0o600)
+	}
+	got, err := opts.validateAndFlattenSpec()
+	vCover("loaded")
+	vAssert(err == nil && got != nil, "loading and flattening a valid spec fails")
+	if err != nil || got == nil {
+		return
+	}
+	orig := got.OrigSpec()
+	pi, ok := orig.Paths.Paths["/x"]
+	vAssert(ok && pi.Post != nil && len(pi.Post.Parameters) == 1 && pi.Post.Parameters[0].Schema != nil, "the original document lost the operation")
+	if !ok || pi.Post == nil || len(pi.Post.Parameters) != 1 || pi.Post.Parameters[0].Schema == nil {
+		return
+	}
+	list := pi.Post.Parameters[0].Schema.Properties["list"]
+	vAssert(list.Ref.String() == "" && len(list.Properties) == 1, "the document's original spec is no longer the input: the inline body was replaced by the flattened one")
+	vAssert(len(orig.Definitions) == 0, "the document's original spec gained definitions the input does not have")
 }
